@@ -3,7 +3,7 @@ From Martian.Common Require Import ExtractBase.
 From Martian.C15 Require Import Model.
 Extraction Language OCaml.
 Extraction "model.ml" base_anchor
-  c15_ok logger_errors logger_errors_legacy compress_active startline_ok first_line forwarded_ok sections_ok reparse_ok skip_ok wf_b canon msg_eqb bytes_eqb
+  c15_ok reads_body logger_errors logger_errors_legacy compress_active startline_ok first_line forwarded_ok sections_ok reparse_ok skip_ok wf_b canon msg_eqb bytes_eqb
   snapshot snapshot_legacy run_logger run_logger_legacy
   model_sections model_sections_legacy model_reparse parse_spec
   chunk_enc chunk_dec dechunk reader hdr_r body_r trl_r header_get kCE kCT body_decoded set_body default_opts.
